@@ -34,6 +34,11 @@ mod tree_painter;
 
 pub mod counter;
 
+#[cfg(divan_verif)]
+#[doc(hidden)]
+#[path = "verif/mod.rs"]
+pub mod __verif;
+
 /// `use divan::prelude::*;` to import common items.
 pub mod prelude {
     #[doc(no_inline)]
